@@ -261,4 +261,587 @@ theorem getD_map0 (f : ℝ → ℝ) (h0 : f 0 = 0) (a : List ℝ) (i : Nat) : (a
     | zero => simp
     | succ j => simp only [List.map_cons, List.getD_cons_succ]; exact ih j
 
+/-! ### denominators and rows -/
+
+theorem den_pos (β k : ℝ) (h0 : 0 ≤ β) (h1 : β ≤ 1) (hk : 0 < k) : 0 < 1 + β * (k - 1) := by
+  have e : 1 + β * (k - 1) = (1 - β) + β * k := by ring
+  rw [e]
+  rcases eq_or_lt_of_le h1 with h | h
+  · rw [h]; simpa using hk
+  · have : 0 ≤ β * k := mul_nonneg h0 hk.le
+    linarith
+
+theorem den_liq_pos (bl k : ℝ) (h0 : 0 ≤ bl) (h1 : bl ≤ 1) (hk : 0 < k) : 0 < k - bl * (k - 1) := by
+  have e : k - bl * (k - 1) = 1 + (1 - bl) * (k - 1) := by ring
+  rw [e]
+  exact den_pos (1 - bl) k (by linarith) (by linarith) hk
+
+theorem gGas_real (z K : List ℝ) (β : ℝ) :
+    gGas z K β = (List.zipWith (fun zi k => zi * (k - 1) / (1 + β * (k - 1))) z K).sum := by
+  unfold gGas; simp only [Num.real_sum, Num.real_one]
+
+theorem gLiq_eq_gGas (z K : List ℝ) (bl : ℝ) : gLiq z K bl = gGas z K (1 - bl) := by
+  unfold gLiq gGas
+  simp only [Num.real_one]
+  congr 1
+  induction z generalizing K with
+  | nil => simp
+  | cons x xs ih => cases K with
+    | nil => simp
+    | cons k ks =>
+      simp only [List.zipWith_cons_cons, List.cons.injEq]
+      refine ⟨?_, ih ks⟩
+      congr 1; ring
+
+theorem rows_length (z K : List ℝ) (β : ℝ) (hlen : z.length = K.length) :
+    (rows z K β).1.length = z.length ∧ (rows z K β).2.length = z.length := by
+  unfold rows; simp [hlen]
+
+/-- x_gas = K · x_liq, as lists -/
+theorem rows_xg_eq (z K : List ℝ) (β : ℝ) :
+    (rows z K β).1 = List.zipWith (fun k l => k * l) K (rows z K β).2 := by
+  unfold rows
+  simp only [Num.real_one]
+  induction z generalizing K with
+  | nil => simp
+  | cons x xs ih => cases K with
+    | nil => simp
+    | cons k ks =>
+      simp only [List.zipWith_cons_cons, List.cons.injEq]
+      exact ⟨by ring, ih ks⟩
+
+/-- component material balance, as lists -/
+theorem rows_balance (z K : List ℝ) (β : ℝ) (hlen : z.length = K.length)
+    (hd : ∀ k ∈ K, 1 + β * (k - 1) ≠ 0) :
+    List.zipWith (fun g l => β * g + (1 - β) * l) (rows z K β).1 (rows z K β).2 = z := by
+  unfold rows
+  simp only [Num.real_one]
+  induction z generalizing K with
+  | nil => simp
+  | cons x xs ih => cases K with
+    | nil => simp at hlen
+    | cons k ks =>
+      simp only [List.zipWith_cons_cons, List.cons.injEq]
+      have hk := hd k List.mem_cons_self
+      refine ⟨?_, ih ks (by simpa using hlen) (fun k' hk' => hd k' (List.mem_cons_of_mem _ hk'))⟩
+      field_simp
+      ring
+
+/-- Σ x_liq = Σ z − β·g(β)   and   Σ x_gas = Σ z + (1−β)·g(β) -/
+theorem rows_sums (z K : List ℝ) (β : ℝ) (hlen : z.length = K.length)
+    (hd : ∀ k ∈ K, 1 + β * (k - 1) ≠ 0) :
+    (rows z K β).2.sum = z.sum - β * gGas z K β ∧ (rows z K β).1.sum = z.sum + (1 - β) * gGas z K β := by
+  rw [gGas_real]
+  unfold rows
+  simp only [Num.real_one]
+  induction z generalizing K with
+  | nil => simp
+  | cons x xs ih => cases K with
+    | nil => simp at hlen
+    | cons k ks =>
+      simp only [List.zipWith_cons_cons, List.sum_cons]
+      have hk := hd k List.mem_cons_self
+      obtain ⟨h1, h2⟩ := ih ks (by simpa using hlen) (fun k' hk' => hd k' (List.mem_cons_of_mem _ hk'))
+      rw [h1, h2]
+      constructor
+      · field_simp; ring
+      · field_simp; ring
+
+/-! ### zero components: mask / gather / scatter -/
+
+theorem mask_cons_pos (x : ℝ) (xs : List ℝ) (h : 0 < x) : mask (x :: xs) = true :: mask xs := by
+  unfold mask; simp only [List.map_cons, Num.real_zero]; simp [h]
+
+theorem mask_cons_nonpos (x : ℝ) (xs : List ℝ) (h : ¬ 0 < x) : mask (x :: xs) = false :: mask xs := by
+  unfold mask; simp only [List.map_cons, Num.real_zero]; simp [h]
+
+theorem mask_nil : mask ([] : List ℝ) = [] := rfl
+
+theorem scatter_map (f : ℝ → ℝ) (h0 : f 0 = 0) : ∀ (mk : List Bool) (v : List ℝ),
+    scatter mk (v.map f) = (scatter mk v).map f := by
+  intro mk
+  induction mk with
+  | nil => intro v; simp [scatter]
+  | cons b bs ih =>
+    intro v
+    cases b with
+    | false => simp only [scatter, List.map_cons, Num.real_zero, h0, ih v]
+    | true => cases v with
+      | nil =>
+        have := ih []
+        simp only [List.map_nil] at this
+        simp only [scatter, List.map_nil, List.map_cons, Num.real_zero, h0]
+        rw [← this]
+      | cons x xs => simp only [scatter, List.map_cons, ih xs]
+
+theorem scatter_zipWith (f : ℝ → ℝ → ℝ) (h00 : f 0 0 = 0) : ∀ (mk : List Bool) (a b : List ℝ),
+    a.length = b.length → scatter mk (List.zipWith f a b) = List.zipWith f (scatter mk a) (scatter mk b) := by
+  intro mk
+  induction mk with
+  | nil => intro a b _; simp [scatter]
+  | cons c cs ih =>
+    intro a b hl
+    cases c with
+    | false => simp only [scatter, List.zipWith_cons_cons, Num.real_zero, h00, ih a b hl]
+    | true => cases a with
+      | nil => cases b with
+        | nil =>
+          have := ih [] [] rfl
+          simp only [List.zipWith_nil_left] at this
+          simp only [scatter, List.zipWith_nil_left, List.zipWith_cons_cons, Num.real_zero, h00]
+          rw [← this]
+        | cons y ys => simp at hl
+      | cons x xs => cases b with
+        | nil => simp at hl
+        | cons y ys =>
+          simp only [scatter, List.zipWith_cons_cons, ih xs ys (by simpa using hl)]
+
+/-- moles of the kept components, scattered back, are the moles of all components (zero masses
+    give zero moles) -/
+theorem scatter_gather_vdiv : ∀ (m M : List ℝ), M.length = m.length → (∀ x ∈ m, 0 ≤ x) →
+    scatter (mask m) (Num.vdiv (gather (mask m) m) (gather (mask m) M)) = Num.vdiv m M := by
+  intro m
+  induction m with
+  | nil => intro M _ _; simp [mask_nil, scatter, Num.vdiv]
+  | cons x xs ih =>
+    intro M hl h0
+    cases M with
+    | nil => simp at hl
+    | cons y ys =>
+      have hl' : ys.length = xs.length := by simpa using hl
+      have h0' : ∀ x ∈ xs, 0 ≤ x := fun a ha => h0 a (List.mem_cons_of_mem _ ha)
+      have ih' := ih ys hl' h0'
+      by_cases hx : 0 < x
+      · rw [mask_cons_pos x xs hx]
+        simp only [gather, Num.vdiv, List.zipWith_cons_cons, scatter]
+        simp only [Num.vdiv] at ih'
+        rw [ih']
+      · rw [mask_cons_nonpos x xs hx]
+        have hx0 : x = 0 := le_antisymm (not_lt.mp hx) (h0 x List.mem_cons_self)
+        simp only [gather, Num.vdiv, List.zipWith_cons_cons, scatter, Num.real_zero]
+        simp only [Num.vdiv] at ih'
+        rw [ih', hx0]; simp
+
+theorem sum_vdiv_gather : ∀ (m M : List ℝ), M.length = m.length → (∀ x ∈ m, 0 ≤ x) →
+    (Num.vdiv (gather (mask m) m) (gather (mask m) M)).sum = (Num.vdiv m M).sum := by
+  intro m
+  induction m with
+  | nil => intro M _ _; simp [mask_nil, gather, Num.vdiv]
+  | cons x xs ih =>
+    intro M hl h0
+    cases M with
+    | nil => simp at hl
+    | cons y ys =>
+      have hl' : ys.length = xs.length := by simpa using hl
+      have h0' : ∀ x ∈ xs, 0 ≤ x := fun a ha => h0 a (List.mem_cons_of_mem _ ha)
+      have ih' := ih ys hl' h0'
+      by_cases hx : 0 < x
+      · rw [mask_cons_pos x xs hx]
+        simp only [gather, Num.vdiv, List.zipWith_cons_cons, List.sum_cons]
+        simp only [Num.vdiv] at ih'
+        rw [ih']
+      · rw [mask_cons_nonpos x xs hx]
+        have hx0 : x = 0 := le_antisymm (not_lt.mp hx) (h0 x List.mem_cons_self)
+        simp only [gather, Num.vdiv, List.zipWith_cons_cons, List.sum_cons]
+        simp only [Num.vdiv] at ih'
+        rw [ih', hx0]; simp
+
+theorem moleFrac_real (m M : List ℝ) :
+    moleFrac m M = (Num.vdiv m M).map (fun x => x / (Num.vdiv m M).sum) := by
+  unfold moleFrac; simp only [Num.real_sum]
+
+/-- removing zero-mass components, computing mole fractions and re-inserting zeros gives the mole
+    fractions of the full feed -/
+theorem scatter_moleFrac (m M : List ℝ) (hl : M.length = m.length) (h0 : ∀ x ∈ m, 0 ≤ x) :
+    scatter (mask m) (moleFrac (gather (mask m) m) (gather (mask m) M)) = moleFrac m M := by
+  rw [moleFrac_real, moleFrac_real, scatter_map _ (by simp), scatter_gather_vdiv m M hl h0,
+    sum_vdiv_gather m M hl h0]
+
+/-- the component `idx` used for the gas moles is the first kept component -/
+theorem getD_scatter_firstIdx : ∀ (m : List ℝ) (v : List ℝ), (∃ x ∈ m, 0 < x) →
+    (scatter (mask m) v).getD (firstIdx m) 0 = v.getD 0 0 := by
+  intro m
+  induction m with
+  | nil => intro v h; obtain ⟨x, hx, _⟩ := h; simp at hx
+  | cons x xs ih =>
+    intro v h
+    cases xs with
+    | nil =>
+      obtain ⟨a, ha, hpos⟩ := h
+      have : a = x := by simpa using ha
+      subst this
+      rw [mask_cons_pos a [] hpos, mask_nil]
+      cases v <;> simp [scatter, firstIdx]
+    | cons y ys =>
+      by_cases hx : 0 < x
+      · rw [mask_cons_pos x _ hx]
+        have : firstIdx (x :: y :: ys) = 0 := by
+          simp only [firstIdx, Num.real_zero, if_neg (not_le.mpr hx)]
+        rw [this]
+        cases v <;> simp [scatter]
+      · rw [mask_cons_nonpos x _ hx]
+        have : firstIdx (x :: y :: ys) = firstIdx (y :: ys) + 1 := by
+          simp only [firstIdx, Num.real_zero, if_pos (not_lt.mp hx)]
+        rw [this]
+        simp only [scatter, List.getD_cons_succ]
+        apply ih
+        obtain ⟨a, ha, hpos⟩ := h
+        rcases List.mem_cons.mp ha with rfl | ha'
+        · exact absurd hpos hx
+        · exact ⟨a, ha', hpos⟩
+
+theorem scatter_length : ∀ (mk : List Bool) (v : List ℝ), (scatter mk v).length = mk.length := by
+  intro mk
+  induction mk with
+  | nil => intro v; simp [scatter]
+  | cons b bs ih =>
+    intro v
+    cases b with
+    | false => simp [scatter, ih]
+    | true => cases v <;> simp [scatter, ih]
+
+theorem scatter_nonneg : ∀ (mk : List Bool) (v : List ℝ), (∀ x ∈ v, 0 ≤ x) → ∀ x ∈ scatter mk v, 0 ≤ x := by
+  intro mk
+  induction mk with
+  | nil => intro v _ x hx; simp [scatter] at hx
+  | cons b bs ih =>
+    intro v hv x hx
+    cases b with
+    | false =>
+      simp only [scatter, Num.real_zero, List.mem_cons] at hx
+      rcases hx with rfl | hx
+      · exact le_refl _
+      · exact ih v hv x hx
+    | true => cases v with
+      | nil =>
+        simp only [scatter, Num.real_zero, List.mem_cons] at hx
+        rcases hx with rfl | hx
+        · exact le_refl _
+        · exact ih [] (by simp) x hx
+      | cons y ys =>
+        simp only [scatter, List.mem_cons] at hx
+        rcases hx with rfl | hx
+        · exact hv _ List.mem_cons_self
+        · exact ih ys (fun a ha => hv a (List.mem_cons_of_mem _ ha)) x hx
+
+theorem getD_zipWith_mul : ∀ (a b : List ℝ) (i : Nat),
+    (List.zipWith (fun x y => x * y) a b).getD i 0 = a.getD i 0 * b.getD i 0 := by
+  intro a
+  induction a with
+  | nil => intro b i; simp
+  | cons x xs ih =>
+    intro b i
+    cases b with
+    | nil => simp
+    | cons y ys => cases i with
+      | zero => simp
+      | succ j => simp only [List.zipWith_cons_cons, List.getD_cons_succ]; exact ih ys j
+
+theorem getD_zipWith_div : ∀ (a b : List ℝ) (i : Nat),
+    (List.zipWith (fun x y => x / y) a b).getD i 0 = a.getD i 0 / b.getD i 0 := by
+  intro a
+  induction a with
+  | nil => intro b i; simp
+  | cons x xs ih =>
+    intro b i
+    cases b with
+    | nil => simp
+    | cons y ys => cases i with
+      | zero => simp
+      | succ j => simp only [List.zipWith_cons_cons, List.getD_cons_succ]; exact ih ys j
+
+theorem getD_nonneg (l : List ℝ) (h : ∀ x ∈ l, 0 ≤ x) (i : Nat) : 0 ≤ l.getD i 0 := by
+  rw [List.getD_eq_getElem?_getD]
+  cases hi : l[i]? with
+  | none => simp
+  | some v => simp; exact h v (List.mem_of_getElem? hi)
+
+/-- the gas moles computed from component `idx` (l.709-710) are `β·N` whenever the rows obey the
+    material balance and the two rows differ in that component -/
+theorem ng_eq (N β ni xgi xli : ℝ) (hN : 0 ≤ N) (hβ : 0 ≤ β) (hbal : N * (β * xgi + (1 - β) * xli) = ni)
+    (hne : xgi ≠ xli) : |(ni - xli * N) / (xgi - xli)| = β * N := by
+  have hd : xgi - xli ≠ 0 := sub_ne_zero.mpr hne
+  have : (ni - xli * N) / (xgi - xli) = β * N := by
+    rw [div_eq_iff hd, ← hbal]; ring
+  rw [this, abs_of_nonneg (mul_nonneg hβ hN)]
+
+/-- back-conversion of mole fractions to phase masses conserves every component -/
+theorem backConvert_conserves (m M xg xl : List ℝ) (β : ℝ)
+    (hN : 0 ≤ (Num.vdiv m M).sum) (hβ0 : 0 ≤ β)
+    (hbal : ∀ i, (Num.vdiv m M).sum * (β * xg.getD i 0 + (1 - β) * xl.getD i 0) = m.getD i 0 / M.getD i 0)
+    (hM0 : ∀ i, M.getD i 0 = 0 → m.getD i 0 = 0)
+    (hne : xg.getD (firstIdx m) 0 ≠ xl.getD (firstIdx m) 0) (i : Nat) :
+    (backConvert m M xg xl).1.getD i 0 = xg.getD i 0 * (β * (Num.vdiv m M).sum) * M.getD i 0 ∧
+    (backConvert m M xg xl).2.getD i 0 = xl.getD i 0 * ((1 - β) * (Num.vdiv m M).sum) * M.getD i 0 ∧
+    (backConvert m M xg xl).1.getD i 0 + (backConvert m M xg xl).2.getD i 0 = m.getD i 0 := by
+  have hng := ng_eq (Num.vdiv m M).sum β ((Num.vdiv m M).getD (firstIdx m) 0) (xg.getD (firstIdx m) 0)
+    (xl.getD (firstIdx m) 0) hN hβ0 (by
+      rw [hbal (firstIdx m)]; unfold Num.vdiv; rw [getD_zipWith_div]) hne
+  have e1 : (backConvert m M xg xl).1.getD i 0 = xg.getD i 0 * (β * (Num.vdiv m M).sum) * M.getD i 0 := by
+    unfold backConvert
+    simp only [Num.real_sum, Num.real_abs, Num.vmul, Num.real_zero]
+    rw [getD_zipWith_mul, getD_map0 _ (by simp), hng]
+  have e2 : (backConvert m M xg xl).2.getD i 0 = xl.getD i 0 * ((1 - β) * (Num.vdiv m M).sum) * M.getD i 0 := by
+    unfold backConvert
+    simp only [Num.real_sum, Num.real_abs, Num.vmul, Num.real_zero]
+    rw [getD_zipWith_mul, getD_map0 _ (by simp), hng]
+    ring
+  refine ⟨e1, e2, ?_⟩
+  rw [e1, e2]
+  have hb := hbal i
+  by_cases hMi : M.getD i 0 = 0
+  · rw [hMi, hM0 i hMi]; ring
+  · have : m.getD i 0 = m.getD i 0 / M.getD i 0 * M.getD i 0 := by field_simp
+    rw [this, ← hb]; ring
+
+/-- the four ways `rrBeta` produces its gas fraction -/
+theorem rrBeta_cases (z K : List ℝ) (fuel : Nat) :
+    ((List.zipWith (fun a b => a * b) z K).sum - 1 ≤ 0 ∧ (rrBeta z K fuel).1 = 0) ∨
+    (¬ ((List.zipWith (fun a b => a * b) z K).sum - 1 ≤ 0) ∧ 0 < 1 - (List.zipWith (fun a b => a / b) z K).sum ∧
+        (rrBeta z K fuel).1 = 1) ∨
+    (¬ ((List.zipWith (fun a b => a * b) z K).sum - 1 ≤ 0) ∧ ¬ (0 < 1 - (List.zipWith (fun a b => a / b) z K).sum) ∧
+        0 < gGas z K (1 / 2 * ((bounds z K).1 + (bounds z K).2)) ∧
+        (rrBeta z K fuel).1 =
+          (rrLoop z K true fuel ⟨(bounds z K).1, (bounds z K).2, 1 / 2 * ((bounds z K).1 + (bounds z K).2)⟩ []).1.bvar) ∨
+    (¬ ((List.zipWith (fun a b => a * b) z K).sum - 1 ≤ 0) ∧ ¬ (0 < 1 - (List.zipWith (fun a b => a / b) z K).sum) ∧
+        ¬ (0 < gGas z K (1 / 2 * ((bounds z K).1 + (bounds z K).2))) ∧
+        (rrBeta z K fuel).1 =
+          1 - (rrLoop z K false fuel ⟨1 - (bounds z K).2, 1 - (bounds z K).1,
+            1 - 1 / 2 * ((bounds z K).1 + (bounds z K).2)⟩ []).1.bvar) := by
+  have half : (OfScientific.ofScientific 5 true 1 : ℝ) = 1 / 2 := by norm_num
+  unfold rrBeta
+  simp only [Num.real_sum, Num.vmul, Num.vdiv, Num.real_one, Num.real_zero, half]
+  split_ifs with h1 h2 h3
+  · left; exact ⟨h1, rfl⟩
+  · right; left; exact ⟨h1, h2, rfl⟩
+  · right; right; left; exact ⟨h1, h2, h3, rfl⟩
+  · right; right; right; exact ⟨h1, h2, h3, rfl⟩
+
+theorem mem_zipWith_zip (f : ℝ → ℝ → ℝ) : ∀ (z K : List ℝ) (x : ℝ), x ∈ List.zipWith f z K →
+    ∃ p ∈ List.zip z K, x = f p.1 p.2 := by
+  intro z
+  induction z with
+  | nil => intro K x hx; simp at hx
+  | cons a as ih =>
+    intro K x hx
+    cases K with
+    | nil => simp at hx
+    | cons k ks =>
+      simp only [List.zipWith_cons_cons, List.mem_cons] at hx
+      rcases hx with rfl | hx
+      · exact ⟨(a, k), by simp, rfl⟩
+      · obtain ⟨p, hp, he⟩ := ih ks x hx
+        exact ⟨p, by simp only [List.zip_cons_cons, List.mem_cons]; right; exact hp, he⟩
+
+/-- what the bounds (7)/(8) are for: within them no mole fraction of either row exceeds one -/
+theorem row_entries_le_one (zi k β : ℝ) (hz0 : 0 ≤ zi) (hz1 : zi ≤ 1) (hk : 0 < k) (h0 : 0 ≤ β) (h1 : β ≤ 1)
+    (hmin : 1 ≤ k → cmin (zi, k) ≤ β) (hmax : k < 1 → β ≤ cmax (zi, k)) :
+    zi * k / (1 + β * (k - 1)) ≤ 1 ∧ zi / (1 + β * (k - 1)) ≤ 1 := by
+  have hd := den_pos β k h0 h1 hk
+  rw [div_le_one hd, div_le_one hd]
+  rcases le_or_gt 1 k with hk1 | hk1
+  · have hc := hmin hk1
+    unfold cmin at hc
+    simp only at hc
+    rcases eq_or_lt_of_le hk1 with h | h
+    · rw [← h]; constructor <;> nlinarith
+    · rw [div_le_iff₀ (by linarith)] at hc
+      constructor
+      · nlinarith
+      · nlinarith [mul_nonneg h0 (sub_nonneg.mpr hk1)]
+  · have hc := hmax hk1
+    unfold cmax at hc
+    simp only at hc
+    rw [le_div_iff₀ (by linarith)] at hc
+    constructor
+    · nlinarith [mul_nonneg hz0 (sub_nonneg.mpr hk1.le)]
+    · nlinarith
+
+theorem rows_nonneg (z K : List ℝ) (β : ℝ) (hz : ∀ x ∈ z, 0 ≤ x) (hK : ∀ k ∈ K, 0 < k) (h0 : 0 ≤ β) (h1 : β ≤ 1) :
+    (∀ x ∈ (rows z K β).1, 0 ≤ x) ∧ (∀ x ∈ (rows z K β).2, 0 ≤ x) := by
+  unfold rows
+  simp only [Num.real_one]
+  constructor <;> intro x hx <;> obtain ⟨p, hp, rfl⟩ := mem_zipWith_zip _ z K x hx <;>
+    have hm := List.of_mem_zip (a := p.1) (b := p.2) hp <;>
+    have hd := den_pos β p.2 h0 h1 (hK _ hm.2)
+  · exact div_nonneg (mul_nonneg (hz _ hm.1) (hK _ hm.2).le) hd.le
+  · exact div_nonneg (hz _ hm.1) hd.le
+
+/-- an increment below the tolerance after an accepted Newton step bounds the residual of the step -/
+theorem newton_exit (g gp tol : ℝ) (hgp : gp ≠ 0) (h : |(-(g / gp))| ≤ tol) : |g| ≤ tol * |gp| := by
+  rw [abs_neg, abs_div] at h
+  rwa [div_le_iff₀ (abs_pos.mpr hgp)] at h
+
+/-- if the loop stopped through its exit test, the last increment is within the tolerance -/
+theorem rrLoop_exit (z K : List ℝ) (gf : Bool) : ∀ (fuel : Nat) (s : RRState ℝ) (tr : List ℝ),
+    (rrLoop z K gf fuel s tr).2.2 = true →
+    ∃ d rest, (rrLoop z K gf fuel s tr).2.1 = d :: rest ∧ |d| ≤ 1e-8 := by
+  intro fuel
+  induction fuel with
+  | zero => intro s tr h; simp [rrLoop] at h
+  | succ n ih =>
+    intro s tr h
+    unfold rrLoop at h ⊢
+    simp only [] at h ⊢
+    split_ifs at h ⊢ with hc
+    · exact ih _ _ h
+    · refine ⟨_, _, rfl, ?_⟩
+      simp only [Num.real_abs, Num.real_ofSci, not_lt] at hc
+      exact hc
+
+theorem sum_map_div (l : List ℝ) (s : ℝ) : (l.map (fun x => x / s)).sum = l.sum / s := by
+  induction l with
+  | nil => simp
+  | cons x xs ih => simp only [List.map_cons, List.sum_cons, ih, add_div]
+
+theorem vdiv_nonneg (m M : List ℝ) (hm : ∀ x ∈ m, 0 ≤ x) (hM : ∀ x ∈ M, 0 < x) : ∀ x ∈ Num.vdiv m M, 0 ≤ x := by
+  intro x hx
+  unfold Num.vdiv at hx
+  obtain ⟨p, hp, rfl⟩ := mem_zipWith_zip _ m M x hx
+  have hmm := List.of_mem_zip (a := p.1) (b := p.2) hp
+  exact div_nonneg (hm _ hmm.1) (hM _ hmm.2).le
+
+theorem vdiv_sum_pos : ∀ (m M : List ℝ), M.length = m.length → (∀ x ∈ m, 0 ≤ x) → (∀ x ∈ M, 0 < x) →
+    (∃ x ∈ m, 0 < x) → 0 < (Num.vdiv m M).sum := by
+  intro m
+  induction m with
+  | nil => intro M _ _ _ h; obtain ⟨x, hx, _⟩ := h; simp at hx
+  | cons x xs ih =>
+    intro M hl hm hM hpos
+    cases M with
+    | nil => simp at hl
+    | cons y ys =>
+      have hy : 0 < y := hM y List.mem_cons_self
+      have hm' : ∀ a ∈ xs, 0 ≤ a := fun a ha => hm a (List.mem_cons_of_mem _ ha)
+      have hM' : ∀ a ∈ ys, 0 < a := fun a ha => hM a (List.mem_cons_of_mem _ ha)
+      simp only [Num.vdiv, List.zipWith_cons_cons, List.sum_cons]
+      have hrest : 0 ≤ (List.zipWith (fun x1 x2 => x1 / x2) xs ys).sum :=
+        List.sum_nonneg (vdiv_nonneg xs ys hm' hM')
+      by_cases hx : 0 < x
+      · have : 0 < x / y := div_pos hx hy
+        linarith
+      · have hx0 : 0 ≤ x / y := div_nonneg (hm x List.mem_cons_self) hy.le
+        obtain ⟨a, ha, hapos⟩ := hpos
+        rcases List.mem_cons.mp ha with rfl | ha'
+        · exact absurd hapos hx
+        · have := ih ys (by simpa using hl) hm' hM' ⟨a, ha', hapos⟩
+          simp only [Num.vdiv] at this
+          linarith
+
+/-- mole fractions of a feed with non-negative masses, positive molar masses and some mass are a
+    composition -/
+theorem moleFrac_comp (m M : List ℝ) (hl : M.length = m.length) (hm : ∀ x ∈ m, 0 ≤ x) (hM : ∀ x ∈ M, 0 < x)
+    (hpos : ∃ x ∈ m, 0 < x) : (∀ x ∈ moleFrac m M, 0 ≤ x) ∧ (moleFrac m M).sum = 1 := by
+  have hN := vdiv_sum_pos m M hl hm hM hpos
+  rw [moleFrac_real]
+  constructor
+  · intro x hx
+    obtain ⟨a, ha, rfl⟩ := List.mem_map.mp hx
+    exact div_nonneg (vdiv_nonneg m M hm hM a ha) hN.le
+  · rw [sum_map_div, div_self hN.ne']
+
+theorem moleFrac_getD (m M : List ℝ) (i : Nat) :
+    (moleFrac m M).getD i 0 = m.getD i 0 / M.getD i 0 / (Num.vdiv m M).sum := by
+  rw [moleFrac_real, getD_map0 _ (by simp)]
+  unfold Num.vdiv
+  rw [getD_zipWith_div]
+
+theorem getD_pos_or_zero (M : List ℝ) (hM : ∀ x ∈ M, 0 < x) (i : Nat) : (i < M.length ∧ 0 < M.getD i 0) ∨ (M.length ≤ i ∧ M.getD i 0 = 0) := by
+  by_cases h : i < M.length
+  · left
+    refine ⟨h, ?_⟩
+    have e : M.getD i 0 = M[i] := by simp [List.getD_eq_getElem?_getD, h]
+    rw [e]
+    exact hM _ (List.getElem_mem h)
+  · right
+    exact ⟨not_lt.mp h, by simp [List.getD_eq_getElem?_getD, not_lt.mp h]⟩
+
+theorem finalCleanup_two_phase (z : List ℝ) (o : MMOut ℝ) (h0 : o.beta ≠ 0) (h1 : o.beta ≠ 1) :
+    finalCleanup z o = o := by
+  unfold finalCleanup
+  simp only [Num.real_one, Num.real_zero]
+  rw [if_neg (fun h => h1 (le_antisymm h.1 h.2)), if_neg (fun h => h0 (le_antisymm h.1 h.2))]
+
+/-- explicit phase masses produced by `equilibriumPost` from rows obeying the material balance of the
+    non-zero components -/
+theorem equilibriumPost_masses (m M : List ℝ) (o : MMOut ℝ)
+    (hl : M.length = m.length) (hm : ∀ x ∈ m, 0 ≤ x) (hM : ∀ x ∈ M, 0 < x) (hpos : ∃ x ∈ m, 0 < x)
+    (hrl : o.xg.length = o.xl.length) (hβ0 : 0 ≤ o.beta)
+    (hbal : List.zipWith (fun g l => o.beta * g + (1 - o.beta) * l) o.xg o.xl
+      = moleFrac (gather (mask m) m) (gather (mask m) M))
+    (hne : o.xg.getD 0 0 ≠ o.xl.getD 0 0) (i : Nat) :
+    (equilibriumPost m M o).mg.getD i 0
+      = (scatter (mask m) o.xg).getD i 0 * (o.beta * (Num.vdiv m M).sum) * M.getD i 0 ∧
+    (equilibriumPost m M o).ml.getD i 0
+      = (scatter (mask m) o.xl).getD i 0 * ((1 - o.beta) * (Num.vdiv m M).sum) * M.getD i 0 ∧
+    (equilibriumPost m M o).mg.getD i 0 + (equilibriumPost m M o).ml.getD i 0 = m.getD i 0 := by
+  have hN := vdiv_sum_pos m M hl hm hM hpos
+  have hfull : List.zipWith (fun g l => o.beta * g + (1 - o.beta) * l) (scatter (mask m) o.xg) (scatter (mask m) o.xl)
+      = moleFrac m M := by
+    rw [← scatter_zipWith _ (by ring) (mask m) o.xg o.xl hrl, hbal, scatter_moleFrac m M hl hm]
+  have hbal' : ∀ j, (Num.vdiv m M).sum * (o.beta * (scatter (mask m) o.xg).getD j 0
+      + (1 - o.beta) * (scatter (mask m) o.xl).getD j 0) = m.getD j 0 / M.getD j 0 := by
+    intro j
+    have := congrArg (fun l => l.getD j 0) hfull
+    rw [getD_zipWith_len _ (by ring) _ _ (by rw [scatter_length, scatter_length]), moleFrac_getD] at this
+    rw [this]
+    field_simp
+  have hM0 : ∀ j, M.getD j 0 = 0 → m.getD j 0 = 0 := by
+    intro j hj
+    rcases getD_pos_or_zero M hM j with ⟨_, h⟩ | ⟨h, _⟩
+    · rw [hj] at h; exact absurd h (lt_irrefl _)
+    · have h' : m.length ≤ j := by rw [← hl]; exact h
+      simp [List.getD_eq_getElem?_getD, h']
+  have hne' : (scatter (mask m) o.xg).getD (firstIdx m) 0 ≠ (scatter (mask m) o.xl).getD (firstIdx m) 0 := by
+    rw [getD_scatter_firstIdx m _ hpos, getD_scatter_firstIdx m _ hpos]; exact hne
+  exact backConvert_conserves m M (scatter (mask m) o.xg) (scatter (mask m) o.xl) o.beta hN.le hβ0 hbal' hM0 hne' i
+
+theorem zipWith_beta_one (a : List ℝ) : List.zipWith (fun g l => (1:ℝ) * g + (1 - 1) * l) a (zeros a) = a := by
+  unfold zeros
+  simp only [Num.real_zero]
+  induction a with
+  | nil => rfl
+  | cons x xs ih => simp only [List.map_cons, List.zipWith_cons_cons, List.cons.injEq]; exact ⟨by ring, ih⟩
+
+theorem zipWith_beta_zero (a : List ℝ) : List.zipWith (fun g l => (0:ℝ) * g + (1 - 0) * l) (zeros a) a = a := by
+  unfold zeros
+  simp only [Num.real_zero]
+  induction a with
+  | nil => rfl
+  | cons x xs ih => simp only [List.map_cons, List.zipWith_cons_cons, List.cons.injEq]; exact ⟨by ring, ih⟩
+
+theorem zeros_length (a : List ℝ) : (zeros a).length = a.length := by unfold zeros; simp
+
+theorem zeros_getD (a : List ℝ) (i : Nat) : (zeros a).getD i 0 = 0 := by
+  unfold zeros
+  simp only [Num.real_zero]
+  rw [getD_map0 (fun _ => (0:ℝ)) rfl]
+
+/-- the first kept component has a positive mole fraction -/
+theorem moleFrac_gather_head_pos : ∀ (m M : List ℝ), M.length = m.length → (∀ x ∈ m, 0 ≤ x) → (∀ x ∈ M, 0 < x) →
+    (∃ x ∈ m, 0 < x) → 0 < (moleFrac (gather (mask m) m) (gather (mask m) M)).getD 0 0 := by
+  intro m M hl hm hM hpos
+  have hN := vdiv_sum_pos m M hl hm hM hpos
+  rw [moleFrac_getD, sum_vdiv_gather m M hl hm]
+  apply div_pos _ hN
+  clear hN
+  induction m generalizing M with
+  | nil => obtain ⟨x, hx, _⟩ := hpos; simp at hx
+  | cons x xs ih =>
+    cases M with
+    | nil => simp at hl
+    | cons y ys =>
+      by_cases hx : 0 < x
+      · rw [mask_cons_pos x xs hx]
+        simp only [gather, List.getD_cons_zero]
+        exact div_pos hx (hM y List.mem_cons_self)
+      · rw [mask_cons_nonpos x xs hx]
+        simp only [gather]
+        apply ih ys (by simpa using hl) (fun a ha => hm a (List.mem_cons_of_mem _ ha))
+          (fun a ha => hM a (List.mem_cons_of_mem _ ha))
+        obtain ⟨a, ha, hapos⟩ := hpos
+        rcases List.mem_cons.mp ha with rfl | ha'
+        · exact absurd hapos hx
+        · exact ⟨a, ha', hapos⟩
+
 end TamocV.Lemmas.C02
